@@ -23,8 +23,9 @@ def conditions(tier, seed):
                             bound='3 instances; identifier on Id (values None,0,1,2), on (n,s) (None,0,1 x None,a,b), or both (2 varying instances, 4 (n,s) values); shard %d/4' % sh,
                             case_split=['ii (index into the table of identifier-value assignments)'], twin=(ut == 'UNIQUE_ID' and sh == 0)))
     if tier == 'thorough':
-        out.append(Cond('assoc_3x3', 'c11_cons.py', dict(uid_type='UNIQUE_ID', n=3), func='check_assoc', timeout=t,
-                        bound='as assoc, every 3x3 link matrix', case_split=['ci', 'mat', 'mat2', 'refl'], twin=False))
+        for sh in range(31):
+            out.append(Cond('assoc_3x3_s%d' % sh, 'c11_cons.py', dict(uid_type='UNIQUE_ID', n=3, shard=sh, nshards=31), func='check_assoc', timeout=t,
+                            bound='as assoc, every 3x3 link matrix, cardinality combination %d of 31' % sh, case_split=['mat', 'mat2', 'refl'], twin=False))
     out.append(Cond('subtype', 'c11_cons.py', {}, func='check_subtype', timeout=t,
                     bound='3 supertype instances, two subtypes each related to none or one of them', case_split=['x', 'y']))
     out.append(Cond('cli', 'c11_cons.py', {}, func='check_cli', timeout=t,
